@@ -16,6 +16,7 @@ RULE = ('every public name of numqi.state (discovered with dir(); an uncovered n
         'values; distinct = (constructor, size args, parameter bucket).'
         ' Second-call clause (edit the returned array in place, call again) for every constructor, load_upb, the POVM and the Chebyshev bases; W-type states also from integer coefficients.'
         ' Dimensions up to 10 for the Werner / isotropic families.')
+RULE += ' Closed-form eof of the Werner / isotropic families is also asked with integer alpha (scalar and array).'
 ASSUMPTIONS = ['sixparam UPB: angles are drawn away from multiples of pi/2 (the code itself warns that the construction degenerates there)',
                'closed-form thresholds: "vanish exactly" is checked as == 0 on the separable range, continuity as |f| <= 1e-6 at 1e-9 beyond the threshold',
                'get_Isotropic_eof is compared with the Terhal-Vollbrecht formula re-implemented from the literature']
@@ -253,9 +254,14 @@ def run_fam(ctx, case):
         if fam == 'isotropic':
             ctx.close(vals['eof'], iso_eof_ref(d, alpha), 1e-9, 'isotropic eof = Terhal-Vollbrecht formula')
             ctx.close(float(np.asarray(S.get_Isotropic_eof(d, 1.0))), math.log(d), 1e-12, 'isotropic eof(alpha=1) = log d')
+            ctx.close(np.asarray(S.get_Isotropic_eof(d, 1), dtype=np.float64), math.log(d), 1e-12, 'isotropic eof: integer alpha = float alpha')
+            ctx.close(np.asarray(S.get_Isotropic_eof(d, np.array([0, 1])), dtype=np.float64), [0.0, math.log(d)], 1e-12, 'isotropic eof: integer alpha array = float alpha array')
             arr = S.get_Isotropic_eof(d, np.array([alpha, lo, 1.0]))
             ctx.close(arr, [vals['eof'], 0.0, math.log(d)], 1e-12, 'array argument = element-wise')
         else:
+            ctx.close(np.asarray(S.get_Werner_eof(d, 1), dtype=np.float64), np.asarray(S.get_Werner_eof(d, 1.0), dtype=np.float64), 1e-15, 'Werner eof: integer alpha = float alpha')
+            ctx.close(np.asarray(S.get_Werner_eof(d, np.array([-1, 0, 1])), dtype=np.float64), np.asarray(S.get_Werner_eof(d, np.array([-1.0, 0.0, 1.0])), dtype=np.float64), 1e-15,
+                      'Werner eof: integer alpha array = float alpha array')
             arr = S.get_Werner_eof(d, np.array([alpha, lo]))
             ctx.close(arr, [vals['eof'], 0.0], 1e-12, 'array argument = element-wise')
             if d == 2:
